@@ -34,12 +34,13 @@ INFO = dict(
               'ServerSet (kazoo watch recipes over the in-memory znode tree of C19, symbolic watch-delivery delays) feeding the real Open(): after a '
               'history of member znodes created / deleted (before, during, after the open) the balancer holds exactly the members in the tree.',
   bounds={'quick': '|U| <= 4, |R| <= 3; aperture min_size in {1,2}; gating: 2 initial members, 2 notifications; ZooKeeper provider: 2 znode changes over 3 names', 'thorough': '|U| <= 5, |R| <= 4; gating: 3 notifications; ZooKeeper provider: 3 znode changes'},
-  outside=['larger universes', 'named (additional) endpoints', 'provider failures during Initialize/GetServers (retry loop)'],
+  outside=['larger universes', 'one endpoint registered under two member nodes at the same time (the balancer keys members by endpoint)', 'named (additional) endpoints', 'provider failures during Initialize/GetServers (retry loop)'],
   stubs=['random.* in heap/aperture/base -> symbolic (3.3); shuffle = identity', 'fake channels, fake server-set provider (3.12)', 'virtual loop (3.1)'],
   assumptions=['notifications are delivered serially in the order they occurred (the provider contract stated in base.py)', 'invariant = reachable states'],
 )
 EXPECT_COVERS = ['join-while-still-pending', 'join-new', 'join-duplicate', 'leave-present', 'leave-unknown', 'aperture-leave-active-replaced-from-idle',
-                 'aperture-join-goes-idle', 'gating-notification-during-load', 'zk-member-created', 'zk-member-deleted', 'zk-change-during-open']
+                 'aperture-join-goes-idle', 'gating-notification-during-load', 'zk-member-created', 'zk-member-deleted', 'zk-change-during-open',
+                 'zk-server-re-registers-under-new-node']
 
 
 def jobs(tier):
@@ -273,6 +274,8 @@ def zk_provider(job):
   first_at = fresh_real('first_change_at', 0, 3)
   if hdecide(first_at > 0): gevent.sleep(first_at)
   if s._state != ChannelState.Open: cover('zk-change-during-open')
+  EPI = {'member_A': 0, 'member_B': 1, 'member_C': 0}
+  last = None
   for step in range(job['k']):
     if step:
       g = fresh_real('gap%d' % step, 0, 3)
@@ -280,13 +283,19 @@ def zk_provider(job):
     present = t.children('/svc')
     ops = [('delete', n) if n in present else ('create', n) for n in Z.NAMES]
     o, n = ops[choose('op%d' % step, len(ops))]
-    if o == 'create': t.create('/svc/' + n, Z.member_blob(Z.NAMES.index(n))); cover('zk-member-created')
+    if o == 'create':
+      # member_C is member_A's server registering again under a new node name (same endpoint); the two nodes are never
+      # present at the same time (the balancer keys its members by endpoint)
+      if any(EPI[m] == EPI[n] for m in present if m in EPI): continue
+      if n == 'member_C' and step and last == ('delete', 'member_A'): cover('zk-server-re-registers-under-new-node')
+      t.create('/svc/' + n, Z.member_blob(EPI[n])); cover('zk-member-created')
     else: t.delete('/svc/' + n); cover('zk-member-deleted')
+    last = (o, n)
   gevent.sleep(30)
   check('zk.open-completes', ar.ready())
   eps, idle = held_endpoints(s)
   held = [(e.host, e.port) for e in eps + idle]
-  final = [('h%d' % Z.NAMES.index(n), 9000 + Z.NAMES.index(n)) for n in t.children('/svc') if n.startswith('member_')]
+  final = [('h%d' % EPI[n], 9000 + EPI[n]) for n in t.children('/svc') if n.startswith('member_')]
   check('zk.equals-tree-members', set(held) == set(final) and len(held) == len(set(held)))
   check('zk.servers-map', set((e.host, e.port) for e in s._servers.keys()) == set(final))
   # eligibility: a dispatch reaches a current member
